@@ -2,7 +2,7 @@
     For every history of calls, from every process state, each call's result is the result of
     assembling that program alone.  Hash-map iteration order, the clock and the OS are not in the
     model; the tie to the implementation is the history correspondence of harness/run/props/c10.py. *)
-From Coq Require Import List ZArith String Bool.
+From Coq Require Import List ZArith String Bool Permutation.
 From Gosk Require Import Base.Bytes Model.Ast Model.Asm Model.Top Model.Encoder Model.History.
 Import ListNotations.
 
@@ -19,3 +19,19 @@ Theorem C10_repeat : forall p d1 d2 g,
   = [assemble_file gosk_encoder p; assemble_file gosk_encoder p].
 Proof. intros. apply C10_history. Qed.
 Print Assumptions C10_repeat.
+
+(* what came before - any number of calls, from any process state - does not show in what comes after *)
+Theorem C10_prefix_irrelevant : forall h1 h2 g g',
+  run g (h1 ++ h2) = run g h1 ++ run g' h2.
+Proof. intros. rewrite !C10_history. apply map_app. Qed.
+Print Assumptions C10_prefix_irrelevant.
+
+(* the same calls in another order give the same results, in that order *)
+Theorem C10_order_irrelevant : forall h h' g g', Permutation h h' -> Permutation (run g h) (run g' h').
+Proof. intros h h' g g' H. rewrite !C10_history. apply Permutation_map. exact H. Qed.
+Print Assumptions C10_order_irrelevant.
+
+(* the state a call leaves behind never reaches a later result: two processes with different pasts agree from here on *)
+Theorem C10_state_irrelevant : forall h g g', run g h = run g' h.
+Proof. intros. rewrite !C10_history. reflexivity. Qed.
+Print Assumptions C10_state_irrelevant.
